@@ -7,6 +7,7 @@ package main
 
 import (
 	"bufio"
+	"bytes"
 	"encoding/hex"
 	"encoding/json"
 	"fmt"
@@ -26,12 +27,40 @@ type verifReq struct {
 	S    string   `json:"s,omitempty"`
 	S2   string   `json:"s2,omitempty"`
 
+	Pkgs []verifPkg `json:"pkgs,omitempty"`
+	Cur  string     `json:"cur,omitempty"`
+
 	Literals bool   `json:"literals,omitempty"`
 	Tiny     bool   `json:"tiny,omitempty"`
 	Ctrlflow bool   `json:"ctrlflow,omitempty"`
 	Gogarble string `json:"gogarble,omitempty"`
 	BinaryID string `json:"binary_id,omitempty"` // hex
 	TestObf  string `json:"testobf,omitempty"`
+}
+
+type verifPkg struct {
+	Path     string   `json:"path"`
+	Name     string   `json:"name"`
+	ToObf    bool     `json:"to_obf"`
+	Imports  []string `json:"imports"`
+	Standard bool     `json:"standard"`
+	ActionID string   `json:"aid"` // hex, 15 bytes
+}
+
+// verifSetPkgs fills sharedCache.ListedPackages from the request and returns the current package.
+func verifSetPkgs(r *verifReq) *listedPackage {
+	var cur *listedPackage
+	for _, p := range r.Pkgs {
+		lp := &listedPackage{Name: p.Name, ImportPath: p.Path, ToObfuscate: p.ToObf, Imports: p.Imports, Standard: p.Standard}
+		if p.ActionID != "" {
+			lp.GarbleActionID = addGarbleToHash(verifHex(p.ActionID))
+		}
+		sharedCache.ListedPackages.set(p.Path, lp)
+		if p.Path == r.Cur {
+			cur = lp
+		}
+	}
+	return cur
 }
 
 func verifHex(s string) []byte {
@@ -96,6 +125,20 @@ func verifHandle(r *verifReq) (resp map[string]any) {
 		lpkg := &listedPackage{ImportPath: r.S}
 		lpkg.GarbleActionID = addGarbleToHash(verifHex(r.In))
 		resp["out"] = hashWithPackage(lpkg, r.Name)
+	case "linkname":
+		verifSetCfg(r)
+		tf := &transformer{curPkg: verifSetPkgs(r)}
+		l, n := tf.transformLinkname(r.S, r.S2)
+		resp["local"], resp["new"] = l, n
+	case "asmnames":
+		verifSetCfg(r)
+		tf := &transformer{curPkg: verifSetPkgs(r)}
+		var buf bytes.Buffer
+		tf.replaceAsmNames(&buf, []byte(r.S))
+		resp["out"] = buf.String()
+	case "ipath":
+		verifSetCfg(r)
+		resp["out"] = verifSetPkgs(r).obfuscatedImportPath()
 	case "seedset":
 		var f seedFlag
 		// seedFlag.Set prints a warning to stderr for long seeds; harmless here.
